@@ -17,6 +17,7 @@ pub mod richerr;
 pub mod reflect;
 pub mod codegen;
 pub mod tls;
+pub mod balance;
 
 /// Shared event recorder so that events survive a panic or hang of the run.
 #[derive(Clone, Default)]
@@ -57,6 +58,7 @@ fn run_one(lab: &str, stim: &Value, rec: &Rec) {
         "web" => web::run(stim, rec),
         "richerr" => richerr::run(stim, rec),
         "reflect" => reflect::run(stim, rec),
+        "balance" => balance::run(stim, rec),
         "codegen" => codegen::run(stim, rec),
         "tls" => tls::run(stim, rec),
         _ => { eprintln!("unknown lab {lab}"); std::process::exit(2) }
